@@ -127,6 +127,15 @@ class World:
             self.env[i] = {}
             self.desc[i] = [list(op)]
             return
+        if k == "set_from":
+            # the public set() / configure() given another live instance's options object
+            j = op[2]
+            if op[3] == "set":
+                self.md[i].set(self.md[j].options)
+            else:
+                self.md[i].configure({"options": self.md[j].options, "components": {}})
+            self.desc[i] = self.desc[i] + [["set_opts_like", 0, json.dumps(dict(self.md[j].options), sort_keys=True, default=str)]]
+            return
         md = self.md[i]
         if k == "call":
             _, _, meth, di, mode = op
@@ -144,6 +153,9 @@ class World:
 
 def apply_config(md, op):
     k = op[0]
+    if k == "set_opts_like":
+        md.set({kk: vv for kk, vv in json.loads(op[2]).items()})
+        return
     if k == "enable":
         md.enable(op[2])
     elif k == "disable":
@@ -253,6 +265,9 @@ def make_ops(tier, pool):
         ops.append(("setopt", i, "item", "inline_definitions", True))
         ops.append(("rrule", i, "text"))
         ops.append(("use", i, "mark"))
+    ops.append(("set_from", 1, 0, "set"))
+    ops.append(("set_from", 0, 1, "set"))
+    ops.append(("set_from", 1, 0, "configure"))
     return ops
 
 
@@ -261,6 +276,8 @@ def enabled(hist, op):
     if op[0] == "new":
         # second instance only once a first exists (symmetry reduction: slot 1 is never created first)
         return op[1] == 0 or 0 in s
+    if op[0] == "set_from":
+        return op[1] in s and op[2] in s
     return op[1] in s
 
 
@@ -285,6 +302,19 @@ def exec_transition(job):
     for j, (d, snap) in w.dicts.items():
         if d != snap:
             errs.append(("dict", j, "the caller's preset dictionary was modified"))
+    # no mutable object may be reachable from two live instances (other than what the package shares by design
+    # at module/class level): configuring one would configure the other
+    if len(w.md) > 1:
+        shared_ok = heapwalk.module_level_ids()
+        ids = {j: heapwalk.mutable_ids(m, shared_ok) for j, m in w.md.items()}
+        js = sorted(ids)
+        for a in js:
+            for b in js:
+                if a < b:
+                    common = set(ids[a]) & set(ids[b])
+                    if common:
+                        where = sorted(ids[a][x] for x in common)[:3]
+                        errs.append(("aliasing", b, f"instances {a} and {b} share mutable objects: {where}"))
     pd = presets_digest()
     digests = {j: (json.dumps(w.desc[j]), probe(w.md[j], pool)) for j in sorted(w.md)}
     return key, digests, errs, pd, nobj
@@ -398,7 +428,7 @@ def search(tier, acc):
             key, digests, errs, pd, nobj = res[1]
             acc.maxi("heap_objects_walked", nobj)
             for kind, j, msg in errs:
-                acc.violation(kind, msg.split(" on instance")[0][:60], {"history": hist, "slot": j, "tier": tier}, msg)
+                acc.violation(kind, msg.split(" on instance")[0].split(":")[0][:60], {"history": hist, "slot": j, "tier": tier}, msg)
             if pristine_pd is not None and pd != pristine_pd:
                 acc.violation("presets", "shared presets changed", {"history": hist, "tier": tier},
                               "main._PRESETS / presets.*.make() differ from their pristine values after this history")
@@ -493,7 +523,7 @@ def check_case(case, acc):
         return
     key, digests, errs, pd, nobj = res[1]
     for kind, j, msg in errs:
-        acc.violation(kind, msg.split(" on instance")[0][:60], {"history": hist, "slot": j, "tier": tier}, msg)
+        acc.violation(kind, msg.split(" on instance")[0].split(":")[0][:60], {"history": hist, "slot": j, "tier": tier}, msg)
     for j, (desc, dg) in digests.items():
         r = dict(fork_map(exec_reference, [(desc, pool)], 1))[0]
         if r[0] == "ok" and r[1][0] != dg:
